@@ -1086,6 +1086,57 @@ func (e *stageExec) do1(op []string) string {
 			e.fails = append(e.fails, fmt.Sprintf("received-forgot-delivery: %s (%s) was delivered and logged by an earlier run, but the query answers 'not received'", name, unesc(op[4])))
 		}
 		return strconv.FormatBool(ans)
+	case len(op) >= 9 && op[0] == "receivedn":
+		// Stage.Received(parts): "how many of these parts did you receive" (the sender drops that many from
+		// the front of the payload). receivedn <now> n renamed prev hash ftime beg fin [;; n renamed ...]
+		var parts []sts.Binned
+		type q struct {
+			name, tok, renamed string
+			ft                 time.Time
+			b, en              int64
+		}
+		var qs []q
+		rest := op[2:]
+		for {
+			if len(rest) < 7 {
+				return "bad-op"
+			}
+			ft, ok := e.tm(rest[4])
+			b, err1 := strconv.ParseInt(rest[5], 10, 64)
+			en, err2 := strconv.ParseInt(rest[6], 10, 64)
+			if !ok || err1 != nil || err2 != nil {
+				return "bad-op"
+			}
+			name := unesc(rest[0])
+			e.names[name] = true
+			parts = append(parts, &binnedPart{name: name, renamed: unesc(rest[1]), prev: unesc(rest[2]),
+				hash: e.realHash(unesc(rest[3])), ftime: ft, beg: b, end: en})
+			qs = append(qs, q{name, unesc(rest[3]), unesc(rest[1]), ft, b, en})
+			rest = rest[7:]
+			if len(rest) == 0 {
+				break
+			}
+			if rest[0] != ";;" {
+				return "bad-op"
+			}
+			rest = rest[1:]
+		}
+		n := r.st.Received(parts)
+		if n < 0 || n > len(qs) {
+			e.fails = append(e.fails, fmt.Sprintf("received-count-out-of-range: %d for %d parts", n, len(qs)))
+			return strconv.Itoa(n)
+		}
+		// C09: every part the count covers is claimed as received
+		for _, x := range qs[:n] {
+			e.oracleReceived(x.name, x.tok, x.b, x.en)
+		}
+		if n < len(qs) {
+			x := qs[n]
+			if lt, ok := e.oldLogged[x.name+"|"+e.realHash(x.tok)+"|"+x.renamed]; ok && lt >= x.ft.Unix() && lt >= time.Now().Unix()-29*86400 {
+				e.fails = append(e.fails, fmt.Sprintf("received-forgot-delivery: %s (%s) was delivered and logged by an earlier run, but the query answers 'not received'", x.name, x.tok))
+			}
+		}
+		return strconv.Itoa(n)
 	case len(op) == 4 && op[0] == "status":
 		sent, ok := e.tm(op[2])
 		if !ok {
@@ -1554,7 +1605,7 @@ func (e *stageExec) race(op []string) string {
 
 func (e *stageExec) Oracle() []string { f := e.fails; e.fails = nil; return f }
 func (e *stageExec) Signature() (bool, string) {
-	return e.nOps >= 4 && e.kinds["recv"] && (e.kinds["observe"] || e.kinds["status"] || e.kinds["received"]), e.key.String()
+	return e.nOps >= 4 && e.kinds["recv"] && (e.kinds["observe"] || e.kinds["status"] || e.kinds["received"] || e.kinds["receivedn"]), e.key.String()
 }
 func (e *stageExec) Close() {
 	if e.rig != nil {
